@@ -21,6 +21,27 @@ POINTS = ["idle", "queued-out", "queued-in", "busy"]
 LIB_THREADS = ("psm_thread", "transport_layer_thread", "recv_message_monitor")
 
 
+def loop_heads():
+    """(file suffix, function name) -> line number of the loop condition of the four loops of Model/Teardown.lean"""
+    import ast
+    import inspect
+    import bromelia.transport as TR
+    import bromelia.setup as ST
+    import bromelia.statemachine as SM
+    out = {}
+    for mod, cls, fn, key in ((SM, "PeerStateMachine", "_PeerStateMachine__start", "psm"), (TR, "TcpConnection", "_run", "transport"),
+                              (ST, "DiameterAssociation", "recv_message_from_queue", "worker"), (ST, "DiameterAssociation", "get_message", "consumer")):
+        try:
+            f = getattr(getattr(mod, cls), fn)
+            src, first = inspect.getsourcelines(f)
+            tree = ast.parse("".join(src).replace(src[0], src[0].lstrip(), 1) if False else __import__("textwrap").dedent("".join(src)))
+            loop = next(n for n in ast.walk(tree) if isinstance(n, ast.While))
+            out[(f.__code__.co_filename, f.__code__.co_name)] = (key, first + loop.lineno - 1)
+        except Exception:
+            pass
+    return out
+
+
 def scenario(seed, cause, point, consumer, lines, restart=True):
     import bromelia.transport as TR
     import bromelia.setup as ST
@@ -45,6 +66,15 @@ def scenario(seed, cause, point, consumer, lines, restart=True):
     d = Diameter(config=dict(CFG))
     obs = {"consumer": "not-started", "phase": "setup", "cause_at": None, "second": None, "close_exc": None, "send_after": None}
     teardown = {"at": None}
+    heads = loop_heads() if lines else {}
+    evals = {}                        # loop -> evaluations of its loop condition after the closing tick (first connection)
+
+    def on_line(task, code, lineno):
+        h = heads.get((code.co_filename, code.co_name))
+        if h and h[1] == lineno and teardown["at"] is not None and obs["second"] is None and obs["phase"] != "ended" and task is not None:
+            if task.name.endswith(LIB_THREADS) or task.name == "consumer":
+                evals[(h[0], task.name)] = evals.get((h[0], task.name), 0) + 1
+    s.line_hook = on_line if lines else None
     orig_close = ST.DiameterAssociation.close
 
     def logged_close(self):
@@ -172,7 +202,127 @@ def scenario(seed, cause, point, consumer, lines, restart=True):
         info = {"status": status, "phase": obs["phase"], "state": state, "first_socket_closed": bool(first and first.closed),
                 "consumer": obs["consumer"], "alive": alive, "excs": excs, "second": obs["second"], "send_after": obs["send_after"],
                 "teardown_at": teardown["at"], "cause_at": obs["cause_at"], "steps": s.steps, "sockets": len(socks),
-                "close_exc": obs["close_exc"]}
+                "close_exc": obs["close_exc"], "loop_evals_after_teardown": {"%s:%s" % k: v for k, v in evals.items()}}
+    finally:
+        s.kill()
+        undo()
+        ST.DiameterAssociation.close = orig_close
+    return info
+
+
+def server_scenario(seed, cause, consumer, lines):
+    """server role: listening socket, accept (blocking inside start()), CER from the configured peer, then a cause"""
+    import bromelia.transport as TR
+    import bromelia.setup as ST
+    import bromelia.statemachine as SM
+    from bromelia.setup import Diameter
+    from bromelia.base import DiameterMessage
+    from bromelia.messages import DPR, DPA
+    s = simlib.Sim(seed=seed, trace_files=("bromelia/transport.py", "bromelia/setup.py", "bromelia/statemachine.py") if lines else (),
+                   max_steps=25000 if cause == "local-silent" else 90000, timeout_prob=0.05)
+    s.keep_log = False
+    rng = random.Random(seed * 17 + 1)
+    listeners, conns = [], []
+
+    def new_sock(*a):
+        k = simlib.FakeSock(s, listening=True)
+        listeners.append(k)
+        return k
+    cfg = dict(CFG)
+    cfg["MODE"] = "SERVER"
+    pcfg = dict(CFG)
+    pcfg.update({"LOCAL_NODE_HOSTNAME": "peer.h", "LOCAL_NODE_REALM": "peer.r", "PEER_NODE_HOSTNAME": "local.h", "PEER_NODE_REALM": "local.r",
+                 "LOCAL_NODE_IP_ADDRESS": "127.0.0.2", "PEER_NODE_IP_ADDRESS": "127.0.0.1"})
+    peer_cer = Diameter(config=pcfg)._base.cer.dump()
+    mods, undo = simlib.install(s, [TR, ST, SM], socket_factory=new_sock)
+    d = Diameter(config=cfg)
+    obs = {"consumer": "not-started", "phase": "setup", "second": None, "send_after": None, "close_exc": None}
+    teardown = {"at": None}
+    orig_close = ST.DiameterAssociation.close
+
+    def logged_close(self):
+        if teardown["at"] is None:
+            teardown["at"] = s.steps
+        return orig_close(self)
+    ST.DiameterAssociation.close = logged_close
+    try:
+        def consumer_fn():
+            obs["consumer"] = "blocked"
+            m = d.get_message()
+            obs["consumer"] = "returned:" + ("None" if m is None else "msg")
+
+        def lib_threads_done():
+            return all(t.done for t in s.tasks if t.name.endswith(LIB_THREADS))
+
+        def app():
+            d.start()
+            while not d.is_open():
+                mods.time.sleep(0.01)
+            if consumer:
+                mods.threading.Thread(target=consumer_fn, name="consumer").start()
+            for _ in range(rng.randint(0, 20)):
+                mods.time.sleep(0.01)
+            conn = conns[0]
+            if cause in ("local", "local-silent"):
+                try:
+                    d.close()
+                except BaseException as e:
+                    obs["close_exc"] = type(e).__name__
+            elif cause == "eof":
+                conn.eof = True
+            elif cause == "reset":
+                conn.recv_error = ConnectionResetError(104, "Connection reset by peer")
+            elif cause == "dpr":
+                conn.inbox.append(DPR(origin_host="peer.h", origin_realm="peer.r").dump())
+            obs["phase"] = "cause-applied"
+            while not (d.get_current_state() == "Closed" and lib_threads_done() and teardown["at"] is not None):
+                mods.time.sleep(0.01)
+            obs["phase"] = "ended"
+            for _ in range(1500):
+                if obs["consumer"] != "blocked":
+                    break
+                mods.time.sleep(0.01)
+            try:
+                d.start()
+                while not d.is_open():
+                    mods.time.sleep(0.01)
+                obs["second"] = "open"
+            except BaseException as e:
+                obs["second"] = "exc:" + type(e).__name__
+            obs["phase"] = "done"
+        s.spawn(app, "app")
+        served = {}
+
+        def until():
+            for L in listeners:
+                if id(L) not in served and not L.closed:
+                    c = simlib.FakeSock(s)
+                    conns.append(c)
+                    c.inbox.append(peer_cer)
+                    L.pending_accept.append(c)
+                    served[id(L)] = c
+            if conns and cause == "local" and not served.get("dpa"):
+                msgs, _r = split_messages(conns[0].out)
+                for raw in msgs:
+                    m = DiameterMessage.load(raw)[0]
+                    if m.header.get_command_code() == 282 and m.header.is_request():
+                        dpa = DPA(origin_host="peer.h", origin_realm="peer.r", result_code=2001)
+                        dpa.header.hop_by_hop, dpa.header.end_to_end = m.header.hop_by_hop, m.header.end_to_end
+                        conns[0].inbox.append(dpa.dump())
+                        served["dpa"] = True
+            return obs["phase"] == "done"
+        status = s.run(until=until)
+        alive = [(t.name, t.label[0] if isinstance(t.label, tuple) else str(t.label)) for t in s.tasks
+                 if not t.done and t.name.endswith(LIB_THREADS)]
+        try:
+            state = d.get_current_state()
+        except BaseException as e:
+            state = "ERR " + type(e).__name__
+        excs = [(t.name, type(t.exc).__name__) for t in s.tasks if t.exc is not None]
+        info = {"status": status, "phase": obs["phase"], "state": state, "first_socket_closed": bool(conns and conns[0].closed),
+                "listener_closed": bool(listeners and listeners[0].closed), "consumer": obs["consumer"], "alive": alive, "excs": excs,
+                "second": obs["second"], "send_after": None, "teardown_at": teardown["at"], "cause_at": None, "steps": s.steps,
+                "sockets": len(listeners) + len(conns), "close_exc": obs["close_exc"], "loop_evals_after_teardown": {}}
     finally:
         s.kill()
         undo()
@@ -192,12 +342,14 @@ def verdict(info, cause, consumer):
                        "consumer": info["consumer"], "scheduler": info["status"]}, finding)
     if not info["first_socket_closed"]:
         return ("the node reports Closed but the socket of the ended connection was not closed", {"state": info["state"]}, None)
+    if info.get("listener_closed") is False:
+        return ("the node reports Closed but its listening socket was not closed", {"state": info["state"]}, None)
     if consumer and cause not in ("refused", "eof-setup") and not info["consumer"].startswith("returned"):
         return ("an application call blocked in get_message() did not return after the connection ended", {"consumer": info["consumer"]}, None)
-    if info["send_after"] not in ("DiameterAssociationError", "AttributeError", None) and info["phase"] != "done":
+    if info.get("listener_closed") is None and info["send_after"] not in ("DiameterAssociationError", "AttributeError", None) and info["phase"] != "done":
         return ("send_message() on the closed node neither succeeded nor raised", {"send_after": info["send_after"]}, None)
     if info["phase"] == "ended" and info["second"] is None:
-        if info["send_after"] is None:
+        if info["send_after"] is None and info.get("listener_closed") is None:
             return ("send_message() on the closed node blocked", {"scheduler": info["status"]}, None)
         return ("the same node object could not be started again", {"scheduler": info["status"], "state": info["state"]}, None)
     if info["second"] is not None and info["second"] != "open":
@@ -212,6 +364,22 @@ def explore(chk, rng, n, tag):
     import logging
     logging.disable(logging.CRITICAL)
     lines = []
+    for _ in range(max(6, n // 4)):
+        seed = rng.randrange(2 ** 30)
+        cause = rng.choice(["local", "dpr", "eof", "reset", "local-silent", "dpr", "eof"])
+        consumer = rng.random() < 0.6
+        lines_mode = rng.random() < 0.2
+        info = server_scenario(seed, cause, consumer, lines_mode)
+        inp = {"op": "teardown", "role": "server", "seed": seed, "cause": cause, "point": "idle", "consumer_blocked": consumer, "line_level": lines_mode}
+        chk.case(inp, kind="%s:server:%s" % (tag, cause))
+        if info["phase"] == "setup":
+            chk.count("inconclusive:setup-not-finished")
+        v = verdict(info, cause, consumer)
+        if v:
+            chk.violation(v[0], inp, "Closed, sockets (incl. the listening one) released, threads terminated, blocked calls returned, restartable",
+                          v[1], finding=v[2])
+        elif info["phase"] == "done":
+            chk.count("server:ended-and-restarted")
     for _ in range(n):
         seed = rng.randrange(2 ** 30)
         cause = rng.choice(CAUSES)
@@ -229,6 +397,12 @@ def explore(chk, rng, n, tag):
             chk.violation(v[0], inp, "Closed, socket released, threads terminated, blocked calls returned, restartable", v[1], finding=v[2])
         elif info["teardown_at"] is not None and info["phase"] == "done":
             chk.count("ended-and-restarted")
+        # quantitative tie to Model/Teardown.lean (theorem exits_in_two / need_after): after the closing tick a loop
+        # evaluates its condition at most twice (once possibly half-way through when the flags changed, once to leave)
+        for loop, n in info.get("loop_evals_after_teardown", {}).items():
+            chk.count("loop-evaluations-after-closing-tick:%d" % n)
+            if n > 2 and info["phase"] != "cause-applied":
+                chk.corr_break("loop-exit-bound", inp, {"loop": loop, "evaluations_after_closing_tick": n}, "at most 2 (Model/Teardown.lean: need <= 2)")
         for name, exc in info["excs"]:
             if name != "app":
                 chk.count("thread-ended-by-exception:%s:%s" % (name, exc))       # terminated, though not by leaving its loop
@@ -249,8 +423,9 @@ def run(chk):
                 "on the same object reaches Open. distinct = distinct (seed, parameters).")
     chk.trusted += ["harness props/c08.py: scripted FakeSock and substituted selector/threading/queue/time; the tie to the Lean model is by end "
                     "state (Down: flags set, socket closed and unregistered; every loop exited) on every explored run, not by step-wise "
-                    "replay", "simulation scheduler harness/sim.py; fairness = the random scheduler eventually runs every enabled thread",
-                    "server role (listening socket, accept) and SCTP are not exercised"]
+                    "replay; on line-level runs the number of loop-condition evaluations after the closing tick is compared with the model's bound",
+                    "simulation scheduler harness/sim.py; fairness = the random scheduler eventually runs every enabled thread",
+                    "server role: listening socket + one accepted connection per start(); SCTP is not exercised"]
     quick = chk.tier == "quick"
     explore(chk, rng, 60 if quick else 2500, "sweep")
 
